@@ -5,6 +5,7 @@
 From Coq Require Import Strings.String Strings.Byte.
 From Coq Require Import List NArith.
 From Goit Require Import Bytes Sha1 Obj World Repo ObjFacts MonadFacts.
+From Goit Require Import Tree Index Commit Inv ConnectedFacts.
 Import ListNotations.
 
 (* T2: over every history of commands (accepted or refused) and user edits, an
@@ -31,7 +32,45 @@ Theorem C03_read_only_under_own_name : forall st id k d,
   exists p, st_lookup st id = Some p /\ sha1 p = id /\ parse_payload p = Some (k, d).
 Proof. exact get_obj_integrity. Qed.
 
+
+(* ---------- Part 2: connectivity over every history ---------- *)
+(* [Connected w] (Inv.v): every branch holds the id of an existing commit; HEAD
+   names an existing branch as soon as there is one; every staged path refers to
+   an existing blob; every stored commit's tree and parents, and every entry of
+   every stored tree, exist with the matching kind; every object file is named
+   by the SHA-1 of its content.
+   [Bad w]: the model flagged a SHA-1 collision, or some object is >= 2^63 bytes.
+   [action_ok]: user edits write only valid paths (no NUL, no empty component). *)
+
+(* T1: after ANY sequence of commands — accepted or refused, with any arguments
+   (unknown ids, blob ids to update-ref, names with / .. \, zero-id reflog
+   positions, resets after renames) — and user edits, the repository is connected *)
+Theorem C03_connected_on_every_history : forall h,
+  Forall action_ok h -> ~ Bad (run h w_empty) -> Connected (run h w_empty).
+Proof. exact connected_run. Qed.
+
+(* the invariant is inductive only together with the auxiliary facts of [Good]
+   (valid staged paths, well-formed stored trees, newline-free config values):
+   Connected alone is NOT preserved — the witness is a commit of a staged path
+   containing NUL, which no file system can produce *)
+Theorem C03_connected_alone_not_inductive :
+  exists w a, action_ok a /\ Connected w /\ ~ Bad (step_w a w) /\ ~ Connected (step_w a w).
+Proof. exact connected_not_inductive. Qed.
+
+Theorem C03_step : forall a w, action_ok a -> Good false w -> ~ Bad (step_w a w) -> Connected (step_w a w).
+Proof. exact connected_step. Qed.
+
+(* every branch names a commit that has its snapshot and its parents *)
+Theorem C03_branches_name_complete_commits : forall w,
+  Connected w -> forall n id, am_get (w_refs w) n = Some id ->
+  exists c, get_commit (w_objs w) id = Some c /\ tree_ok (w_objs w) (c_tree c) /\ Forall (commit_ok (w_objs w)) (c_parents c).
+Proof. exact refs_commits. Qed.
+
 Print Assumptions C03_store_monotone.
 Print Assumptions C03_collision_flag_is_sticky.
 Print Assumptions C03_effects_are_everything.
 Print Assumptions C03_read_only_under_own_name.
+Print Assumptions C03_connected_on_every_history.
+Print Assumptions C03_connected_alone_not_inductive.
+Print Assumptions C03_step.
+Print Assumptions C03_branches_name_complete_commits.
